@@ -4,8 +4,11 @@ CONSTANTS
   Slots = {0}
   Nows = {0}
   SlotsPerEpoch = 32
+  NoRoot = 0
+  HasPayload = {}
+  Deviation = "none"
   Retention = 64
-INVARIANTS MapSound LookupRight ErrorNotSlot
+INVARIANTS ExecHeadSound MapSound LookupRight ErrorNotSlot
 CONSTRAINT HWM
 POSTCONDITION TraceAccepted
 CHECK_DEADLOCK FALSE
